@@ -1433,6 +1433,8 @@ class Stage:
         ret.variables = deepcopy(self.variables)
 
         ret._offsets = deepcopy(self._offsets)
+        ret._inf_der = HashOrderedDict([(k, renew(v)) for k, v in self._inf_der.items()])
+        ret._inf_inert = HashOrderedDict([(k, renew(v)) for k, v in self._inf_inert.items()])
         # B-spline signals (and the derivatives requested of them) are the clone's own
         ret._signals = HashOrderedDict()
         twins = {}
